@@ -15,16 +15,16 @@ CHECKS = {
             "Exploration: errors lists of rejected generated data (k=1..5 simultaneous violations) are compared with the model's set of (location, rule) pairs; pairs of independent single violations must add up; the list must equal its own canonical re-flattening and be independent of dict insertion order.",
             "Trusted: reference model for locations; tagged settings.errors messages to read rule kinds; additivity restricted to union-free programs.", "DESIGN §5 C02"),
     "C03": ("boundary monitor on deserialize with hostile non-JSON inputs: outcome trichotomy, input/class fingerprints, errors JSON-serialisability, sys.monitoring step budget",
-            "Exploration: every call on hostile data must return or raise ValidationError, leave input and user classes untouched, and finish within a logical step budget; held on the executions reported (hostile/coerce/no_copy/deep call counts in the evidence).",
+            "Exploration: every call on hostile data must return or raise ValidationError, leave input and user classes untouched, and finish within a logical step budget; held on the executions reported (hostile/coerce/no_copy/deep call counts in the evidence); includes probe types outside the reference model (Any inside sets / as key, float multipleOf, constraints given twice) and random digraphs of mutually recursive classes.",
             "Trusted: fingerprint walker; step budget constant; RecursionError beyond 200 nesting levels is the recorded finding F11.", "DESIGN §5 C03"),
     "C14": ("paired strict/coerced boundary monitor: model-free monotonicity + reference model extended with the documented coercion table + invariant hook on the boolean-word table + custom-coercer probes",
-            "Exploration: each generated (type, datum) is run strict and with coerce=True; strict acceptance must be preserved (equal result when union-free), every coerced acceptance/rejection must be explained by the documented table, custom coercer results must still be type-checked, settings.deserialization.coerce must equal coerce=True.",
+            "Exploration: each generated (type, datum) is run strict and with coerce=True; strict acceptance must be preserved (equal result when union-free), every coerced acceptance/rejection must be explained by the documented table, custom coercer results must still be type-checked, settings.deserialization.coerce must equal coerce=True; generated discriminated-union families are run strict and coerced too.",
             "Trusted: the coercion table transcribed from docs/de_serialization.md and the statement; abstains on bool-for-float and NaN under constraints.", "DESIGN §5 C14"),
     "C13": ("boundary monitor on deserialize/serialize of unions with the real per-alternative calls as oracle (try-each-alternative), discriminator mapping computed from the program spec",
             "Exploration: for generated unions (same-JSON-type pairs, by-type dispatch, Optional, unsupported members, union-level constraints; strict and coerce=True) the union call must accept iff some alternative accepts and return a value equal to the first accepting alternative's; discriminated unions (annotated / inherited / TypedDict; default, explicit, partial mappings) must behave as the mapped alternative, reject bad tags at the discriminator key, serialize as the matching alternative plus the key, and round-trip; TaggedUnion accepts exactly one tag.",
             "Trusted: apischema's own per-alternative deserialize/serialize (self-referential oracle); the discriminator mapping rule transcribed from docs/json_schema.md and the example.", "DESIGN §5 C13"),
     "C08": ("pairwise boundary monitor (same call with / without one optimisation option) + container-identity walker + input fingerprints",
-            "Exploration: results and errors of deserialize/serialize must be identical across no_copy, override_dataclass_constructors, function vs precomputed method, check_type on well-typed values, deserialization pass_through and all 2^5 PassThroughOptions flag sets (after completion with serialization_default); no_copy=False results share no mutable container with the input; inputs are never modified.",
+            "Exploration: results and errors of deserialize/serialize must be identical across no_copy, override_dataclass_constructors, function vs precomputed method, check_type on well-typed values, deserialization pass_through (instances left untouched; JSON-only data, valid and invalid, with every JSON-free class of the type passed through) and all 2^5 PassThroughOptions flag sets (after completion with serialization_default); no_copy=False results share no mutable container with the input; inputs are never modified.",
             "Trusted: identity walker and JSON completion of pass-through results; abstains on Any positions (no-sharing clause) and on unions whose alternatives overlap by runtime class (serialization side).", "DESIGN §5 C08"),
     "C06": ("differential monitor: verdict of deserialize vs an independent JSON Schema validator (jsonschema, draft 2020-12) on the generated deserialization_schema, restricted to the common semantic domain; explanatory defect models for region-wide known findings",
             "Exploration: for generated (type, options, datum) the real deserialize must accept iff jsonschema validates the datum against the schema generated with the same options (additional_properties, aliaser, all_refs, per-call schema, std conversions), incl. generated discriminated-union families (inherited / Annotated, TypedDict and Literal-tag alternatives, mappings) with data aimed at every alternative and tag mutants; disagreements inside a known-bad region are attributed to the finding only when the explanatory model reproduces the observed outcome exactly.",
@@ -33,7 +33,7 @@ CHECKS = {
             "Exploration: every schema generated for the generated programs x entry points x 5 versions x all_refs x ref_factory must validate against the meta-schema of the dialect it declares, have every $ref resolve (inline or in definitions_schema called with the same arguments), contain no reference cycle through in-place applicators, extract exactly the expected named types, and two classes sharing a type name must be refused; for generated discriminated-union families also the discriminator mapping targets must be defined and the alternatives / discriminated parent extracted.",
             "Trusted: jsonschema's bundled meta-schemas; the walker's notion of sub-schema positions; the expected extraction set computed from the TypeSpec (walk stopping at already seen named types).", "DESIGN §5 C17"),
     "C18": ("differential monitor across dialects: the target dialect's own validator (jsonschema draft-07 / 2019-09; OpenAPI 3.0 through its documented mapping) vs the 2020-12 validator on the same data + foreign-keyword / reference-prefix walker over every sub-schema position",
-            "Exploration: for generated programs and data, the schema produced with version=V must accept exactly what the 2020-12 schema accepts under V's rules, and contain only V's vocabulary and reference prefix at every nesting level (also inside definitions_schema for OpenAPI).",
+            "Exploration: for generated programs and data, the schema produced with version=V must accept exactly what the 2020-12 schema accepts under V's rules, and contain only V's vocabulary and reference prefix at every nesting level (also inside definitions_schema for OpenAPI); all_refs and a per-call schema= are drawn and shared by the reference and the target dialect.",
             "Trusted: jsonschema validators per draft; keyword sets per dialect listed in vf/jsonschema_o.py; OpenAPI 3.0 semantics = nullable mapping + draft-07.", "DESIGN §5 C18"),
     "C04": ("boundary monitor on serialize / serialization_method + executable reference model of the documented image (omission rule) + JSON-only walker + option-invariance probes (check_type, fall_back_on_any, typeless serialize)",
             "Exploration: for generated programs (incl. serialized methods, skip(serialization_if/default), none_as_undefined, with_fields_set) and well-typed values, the real output must be JSON-only and equal to the model's image under every sampled exclude_* / aliaser / additional_properties combination; check_type=True, fall_back_on_any=True and serialize(v) without type must not change it.",
@@ -42,7 +42,7 @@ CHECKS = {
             "Exploration: on the bijective fragment (+ std converted types, generated discriminated-union families: the class selected by the tag and the round trip) every value drawn from the image of deserialize must come back identical with the same runtime classes, also through json.dumps/loads and under aliasers; serialize(deserialize(d)) must contain d, re-deserialize to an equal value and be a fixpoint.",
             "Trusted: canonical image function; the generator's decision of the bijective fragment (documented exclusions are counted in the evidence).", "DESIGN §5 C05"),
     "C07": ("output monitor: serialize(T, v) validated by jsonschema against serialization_schema(T) generated under the same global settings + explicit key-level sub-claims (declared keys, required keys, methods / init=False fields present)",
-            "Exploration: for generated programs and well-typed values, under the four combinations of global exclude_defaults / exclude_none, aliasers and additional_properties, the serialized data must validate against the serialization schema; every emitted key must be declared or allowed, every required key emitted, serialized methods and init=False fields present in properties.",
+            "Exploration: for generated programs and well-typed values, under the four combinations of global exclude_defaults / exclude_none, aliasers and additional_properties, the serialized data must validate against the serialization schema (also for Undefined-by-construction values and generated discriminated-union families, where a disagreement reproduced by the OpenAPI reading of `discriminator` is the known finding F33); every emitted key must be declared or allowed, every required key emitted, serialized methods and init=False fields present in properties.",
             "Trusted: jsonschema validator; explanatory model for the flattened-object finding (F22); dependent_required programs are not generated (input-side rule).", "DESIGN §5 C07"),
     "C19": ("boundary monitors on graphql_schema / validate_schema / print_schema / graphql_sync + resolver call log; oracles: model of the documented type mapping (one-to-one type-map walk), apischema.serialize for result data, apischema.deserialize for arguments",
             "Exploration: every generated program (data model + operations + settings) is built, validated with graphql-core, printed, walked against a model of the documented mapping (kinds, names under the GraphQL aliaser, nullability, ID, enum values, interfaces, unions, defaults), executed with queries selecting every field (result = serialize of the resolver value, enums by name, Undefined as null) and with valid / invalid / omitted arguments passed through variables (resolver log = deserialize values; invalid arguments give errors and an empty log).",
